@@ -293,8 +293,20 @@ class MatchingMonitor(X.Monitor):
         policy = kw["matching_label_policy"].value
         labels = [l.value for l in kw["target_labels"]] if kw.get("target_labels") is not None else None
         radii = kw.get("matchable_thresholds")
-        pos_e = [V.pos_of(o) for o in ests]
-        pos_g = [V.pos_of(o) for o in gts]
+        dim2 = any(V.is_2d(o) for o in list(ests)[:1] + list(gts)[:1])
+        if dim2:
+            ctx.probe("c01_image_objects")
+            pos_e = [V.roi_of(o) for o in ests]
+            pos_g = [V.roi_of(o) for o in gts]
+            cdist, slack = ref.roi_center_distance, ref.ROI_CENTER_SLACK
+        else:
+            pos_e = [V.pos_of(o) for o in ests]
+            pos_g = [V.pos_of(o) for o in gts]
+            cdist, slack = rm.dist3, 0.0
+
+        def near_radius(d, rj):
+            return ref.near(d, rj) or abs(d - rj) <= slack
+
         fr_e = [V.frame_of(o) for o in ests]
         fr_g = [V.frame_of(o) for o in gts]
         lab_e = [V.label_of(o) for o in ests]
@@ -328,8 +340,8 @@ class MatchingMonitor(X.Monitor):
                 ctx.violate("C01", "same_frame_only", "paired objects of frames %s / %s" % (fr_e[i], fr_g[j]), {}, st.index)
             rj = radius(j)
             if rj is not None:
-                d = rm.dist3(pos_e[i], pos_g[j])
-                if ref.near(d, rj):
+                d = cdist(pos_e[i], pos_g[j])
+                if near_radius(d, rj):
                     ctx.skip("boundary_skipped")
                 elif not d < rj:
                     ctx.violate("C01", "within_radius", "pair at distance beyond the matchable radius of the GT label",
@@ -355,7 +367,7 @@ class MatchingMonitor(X.Monitor):
 
         def score(i, j):
             if (i, j) not in dist:
-                dist[(i, j)] = rm.dist3(pos_e[i], pos_g[j])
+                dist[(i, j)] = cdist(pos_e[i], pos_g[j])
             return dist[(i, j)]
 
         ambiguous = False
@@ -369,7 +381,7 @@ class MatchingMonitor(X.Monitor):
         for i in range(len(ests)):
             for j in range(len(gts)):
                 rj = radius(j)
-                if fr_e[i] == fr_g[j] and rj is not None and ref.near(score(i, j), rj):
+                if fr_e[i] == fr_g[j] and rj is not None and near_radius(score(i, j), rj):
                     ambiguous = True
                 if fr_e[i] == fr_g[j] and rj is not None and not score(i, j) < rj:
                     ctx.probe("radius_blocks_pair")
@@ -389,7 +401,7 @@ class MatchingMonitor(X.Monitor):
                          "policy": policy}, st.index)
         # exact greedy when no two candidate scores tie
         cand = sorted(score(i, j) for i in range(len(ests)) for j in range(len(gts)) if matchable(i, j))
-        tie = any(b - a <= 1e-9 for a, b in zip(cand, cand[1:]))
+        tie = any(b - a <= max(1e-9, 2 * slack) for a, b in zip(cand, cand[1:]))
         if tie:
             ctx.skip("c02_tie")
         else:
@@ -418,8 +430,12 @@ class MatchingMonitor(X.Monitor):
 
         kw = rec["kwargs"]
         orig = X.original("manager", "get_object_results")
-        for mode, cls, smaller in ((MatchingMode.PLANEDISTANCE, PlaneDistanceMatching, True),
-                                   (MatchingMode.IOU2D, IOU2dMatching, False), (MatchingMode.IOU3D, IOU3dMatching, False)):
+        dim2 = V.is_2d(ests[0])
+        modes = ((MatchingMode.PLANEDISTANCE, PlaneDistanceMatching, True), (MatchingMode.IOU2D, IOU2dMatching, False),
+                 (MatchingMode.IOU3D, IOU3dMatching, False))
+        if dim2:
+            modes = ((MatchingMode.IOU2D, None, False),)   # image objects: overlap of the ROIs, computed here
+        for mode, cls, smaller in modes:
             kw2 = dict(kw)
             kw2["estimated_objects"] = list(ests)
             kw2["ground_truth_objects"] = list(gts)
@@ -461,7 +477,10 @@ class MatchingMonitor(X.Monitor):
 
             def score(i, j, cls=cls, smaller=smaller, cache=cache):
                 if (i, j) not in cache:
-                    v = cls(estimated_object=ests[i], ground_truth_object=gts[j], transforms=kw.get("transforms")).value
+                    if cls is None:
+                        v = ref.roi_iou(V.roi_of(ests[i]), V.roi_of(gts[j]))
+                    else:
+                        v = cls(estimated_object=ests[i], ground_truth_object=gts[j], transforms=kw.get("transforms")).value
                     cache[(i, j)] = v if smaller else -v
                 return cache[(i, j)]
 
@@ -609,12 +628,19 @@ class C03Monitor(X.Monitor):
                             {"est": V.label_of(r.estimated_object), "gt": V.label_of(g), "policy": policy}, st.index)
             if pf_thr is not None and V.label_of(g) in pf_labels:
                 thr = pf_thr[pf_labels.index(V.label_of(g))]
-                val = r.plane_distance.value
+                if V.is_2d(g):
+                    # image objects pass on the overlap of the two ROIs (larger is better)
+                    val = ref.roi_iou(V.roi_of(r.estimated_object), V.roi_of(g))
+                    beats = val > thr
+                    ctx.probe("c03_image_tp_checked")
+                else:
+                    val = r.plane_distance.value
+                    beats = val is not None and val < thr
                 if val is None:
                     ctx.violate("C03", "tp_is_justified", "TP without a pass/fail score", {}, st.index)
                 elif ref.near(val, thr):
                     ctx.skip("boundary_skipped")
-                elif not val < thr:
+                elif not beats:
                     ctx.violate("C03", "tp_is_justified", "TP whose pass/fail score does not beat the threshold of its GT label",
                                 {"score": val, "threshold": thr, "gt_label": V.label_of(g)}, st.index)
         # --- region ---------------------------------------------------------------------------------
@@ -665,6 +691,23 @@ def bucket_of(r, target_labels):
     return None
 
 
+def result_score(r, mode_name):
+    """(value, absolute slack) of a paired result's matching score under a mode.
+
+    For boxes in space the value is read from the implementation (its exactness is not a claimed property); for image
+    objects it is computed here from the two ROIs."""
+    if r.ground_truth_object is None:
+        return None, 0.0
+    if V.is_2d(r.estimated_object):
+        a, b = V.roi_of(r.estimated_object), V.roi_of(r.ground_truth_object)
+        if mode_name == "Center Distance":
+            return ref.roi_center_distance(a, b), ref.ROI_CENTER_SLACK
+        if mode_name == "IoU 2D":
+            return ref.roi_iou(a, b), 0.0
+        return None, 0.0
+    return V.score_value(r, _MODE_ATTR[mode_name]), 0.0
+
+
 def tp_weight(ctx, r, label, mode_name, threshold, policy, aph):
     """(weight, near_boundary) for one ranked result under the statement's TP rule; weight 0.0 = not a TP.
 
@@ -678,10 +721,10 @@ def tp_weight(ctx, r, label, mode_name, threshold, policy, aph):
         return 0.0, False
     if not ref.ref_compatible(policy, V.label_of(r.estimated_object), V.label_of(g)):
         return 0.0, False
-    val = getattr(r, _MODE_ATTR[mode_name]).value
+    val, slack = result_score(r, mode_name)
     if val is None:
         return 0.0, False
-    nearb = ref.near(val, threshold)
+    nearb = ref.near(val, threshold) or (slack > 0 and not math.isinf(threshold) and abs(val - threshold) <= slack)
     ok = val < threshold if _SMALLER_BETTER[mode_name] else val > threshold
     if not ok:
         return 0.0, nearb
@@ -709,6 +752,8 @@ def check_map(ctx, where, index, map_, frames_results, gt_counts, policy, level,
         confs = [r.estimated_object.semantic_score for r in ranked]
         num_gt = gt_counts.get(lab, 0)
         for aph, holder, store in ((False, map_.aps, aps), (True, map_.aphs, aphs)):
+            if aph and getattr(map_, "is_detection_2d", False) and not holder:
+                continue   # image detection has no heading: no APH is computed
             ap_obj = holder[k]
             weights, boundary, ignored = [], False, 0
             for r in ranked:
